@@ -105,7 +105,10 @@ def render(doc: Doc) -> str:
             head = w[1].split("\n")
             out[-1] += head[0]
             out.extend(head[1:])
-            if len(w) > 2 and w[2]:
+            if len(w) > 3 and w[3]:
+                out[-1] += " "  # the body starts on the line of the colon (`x: {`)
+                open_line = True
+            elif len(w) > 2 and w[2]:
                 out.append("")  # blank line after the head
         elif k == "let":
             out[-1] += "let" + (" " + w[3] if len(w) > 3 and w[3] else "")
@@ -288,7 +291,9 @@ class DocGen:
             heads = ["{ pkgs }:", "{ pkgs, lib }:", "{\n  stdenv,\n  fetchurl,\n  ...\n}:", "x:", "args@{ pkgs, ... }:", "{ }:"]
             calls = ["stdenv.mkDerivation", "f", "mkShell", "pkgs.buildEnv", "stdenv.mkDerivation rec"]
             if shape in ("lambda", "lambda-call", "lambda-with", "lambda-assert", "mixed"):
-                wrappers.append(("lambda", r.choice(heads), r.random() < 0.4))
+                head = r.choice(heads)
+                inline_body = "\n" not in head and r.random() < 0.15
+                wrappers.append(("lambda", head, r.random() < 0.4, inline_body))
             if shape == "with" or shape == "lambda-with":
                 wrappers.append(("with", self.with_env()))
             if shape == "assert" or shape == "lambda-assert":
